@@ -556,7 +556,15 @@ class IrGenerator:
 
             ctx = ir.StatemachineContext.enter(inp._name)
 
-            statemachine_end = self.apply(inp._body, open_blocks=[ctx.first_block()])
+            try:
+                statemachine_end = self.apply(
+                    inp._body, open_blocks=[ctx.first_block()]
+                )
+            except BaseException:
+                # a rejected design must not leave the context active,
+                # it would poison every later compilation in this interpreter
+                ir.StatemachineContext._singleton = None
+                raise
 
             parent_block.append(ir.StatemachineContext.finish(statemachine_end))
 
